@@ -8,9 +8,9 @@ import (
 
 var (
 	errPathNotFound = errors.New("path does not exist")
-	setJSONOptions  = &sjson.Options{
-		Optimistic:     true,
-		ReplaceInPlace: true,
+	// ReplaceInPlace must stay off: the matchers receive the caller's own bytes
+	setJSONOptions = &sjson.Options{
+		Optimistic: true,
 	}
 )
 
